@@ -213,6 +213,32 @@ Proof.
 Qed.
 Print Assumptions C19_envelope_roundtrip.
 
+(* the time of serialisation: in a sequence of task creations from one callable whose value
+   (state pickled by value) changes over time, every task decodes to the function value of the
+   moment THAT task was created -- not of the moment the decorator was applied -- with its
+   arguments; on the decorator path and on the constructor path alike *)
+Theorem C19_envelope_sequence :
+  forall (func blob wire : Type)
+         (ser_obj : func -> blob) (deser_obj : blob -> option func)
+         (ser_bson : envelope blob -> wire) (deser_bson : wire -> option (envelope blob)),
+    (forall fn, deser_obj (ser_obj fn) = Some fn) ->
+    (forall e, deser_bson (ser_bson e) = Some e) ->
+    forall (decor : bool) (f_dec : func) (steps : list (step func)),
+      transport_seq func blob wire ser_obj deser_obj ser_bson deser_bson decor true f_dec steps
+      = map (fun s => inr (st_f s, st_args s, Some (kw_or_empty (st_kw s)))) steps.
+Proof. exact transport_seq_roundtrip. Qed.
+Print Assumptions C19_envelope_sequence.
+
+(* the decorator path and the constructor path produce the same envelope for the same
+   function value, whatever the value was at decoration time (no inverse hypothesis needed) *)
+Theorem C19_envelope_paths_agree :
+  forall (func blob wire : Type) (ser_obj : func -> blob) (ser_bson : envelope blob -> wire)
+         (callable : bool) (f_dec : func) (s : step func),
+    encode_step func blob wire ser_obj ser_bson true callable f_dec s
+    = encode_step func blob wire ser_obj ser_bson false callable f_dec s.
+Proof. exact encode_step_paths_agree. Qed.
+Print Assumptions C19_envelope_paths_agree.
+
 (* something that is not callable is refused *)
 Theorem C19_envelope_not_callable :
   forall (func blob wire : Type) so dobj sb db fn args kw,
